@@ -420,7 +420,7 @@ pub fn c20_different_order_adjacency_map_n2_n3() {
 }
 
 // AdjacencyMap pairs with vertex sets within {0, 2, 3}: equality distinguishes vertex sets of equal size.
-// @verif prop=C20 tier=quick fl=f1 feat=map4 role=vertex-sets/adjacency-map t=1500 mem=16
+// @verif prop=C20 tier=quick fl=f1 feat=map4 role=vertex-sets/adjacency-map t=1500 mem=30
 #[cfg_attr(kani, kani::proof)]
 #[cfg_attr(kani, kani::unwind(8))]
 pub fn c20_map_vertex_sets() {
@@ -456,7 +456,7 @@ pub fn c20_clone_edge_list_n3() {
 }
 
 // AdjacencyMatrix at order 8 (64 cells = exactly one block) — thorough.
-// @verif prop=C20 tier=thorough fl=f0 role=eq-ord-hash/matrix t=3600 mem=24
+// @verif prop=C20 tier=thorough fl=f0 role=eq-ord-hash/matrix t=3600 mem=16
 #[cfg_attr(kani, kani::proof)]
 #[cfg_attr(kani, kani::unwind(18))]
 pub fn c20_eq_ord_hash_matrix_n4() {
